@@ -40,10 +40,20 @@ func otherFields(p sc.ProcSpec) string {
 	return fmt.Sprintf("desc=%q ns=%q sig=%d disabled=%v", p.Description, p.Namespace, p.Signal, p.Disabled)
 }
 
+// byName: the configured processes by the name the runner knows them under; a process with
+// replicas: n >= 2 is n processes named after its replicas.
 func byName(l []sc.ProcSpec) map[string]sc.ProcSpec {
 	m := map[string]sc.ProcSpec{}
 	for _, p := range l {
-		m[p.Name] = p
+		if p.Replicas < 2 {
+			m[p.Name] = p
+			continue
+		}
+		for r := 0; r < p.Replicas; r++ {
+			q := p
+			q.Name = refName(p.Name, p.Replicas, r)
+			m[q.Name] = q
+		}
 	}
 	return m
 }
@@ -452,6 +462,13 @@ func genUpd(t *rapid.T) UpdCase {
 		c.P = append(c.P, genSpec(t, name, names))
 		names = append(names, name)
 	}
+	// one process may be replicated (dependencies on replicated processes are rejected by the loader,
+	// so it is the last one, and it is never offered as a dependency target)
+	replicated := ""
+	if pbt.Pct(t, 30) {
+		c.P[n-1].Replicas = pbt.Pick(t, []int{2, 3})
+		replicated = c.P[n-1].Name
+	}
 	cur := c.P
 	next := n
 	for u := 0; u < pbt.Range(t, 1, 3); u++ {
@@ -462,10 +479,14 @@ func genUpd(t *rapid.T) UpdCase {
 			switch pbt.Pick(t, []string{"keep", "keep", "keep", "mutate", "mutate", "remove"}) {
 			case "keep":
 				np = append(np, p)
-				kept = append(kept, p.Name)
+				if p.Name != replicated {
+					kept = append(kept, p.Name)
+				}
 			case "mutate":
 				np = append(np, mutate(t, p, kept))
-				kept = append(kept, p.Name)
+				if p.Name != replicated {
+					kept = append(kept, p.Name)
+				}
 			case "remove":
 				removed[p.Name] = true
 			}
